@@ -667,10 +667,95 @@ fn dispatch_sweep(e: &mut EnumCtx, tmpls: &[(String, Vec<u8>)]) {
     }
 }
 
+/// Hooks registered BETWEEN steps (seed C12j: a remembered hook lookup): a run of instructions of
+/// one mnemonic, k steps, then a before-hook, an after-hook or both are registered (no hook is
+/// executing, so registration is allowed), then every remaining instruction is stepped - each
+/// later instruction runs each hook registered by then exactly once, in the right phase.
+fn late_registration_sweep(e: &mut EnumCtx) {
+    let progs: [(&str, SupportedMnemonic, Vec<u8>, usize); 2] = [
+        ("nop x6", SupportedMnemonic::Nop, vec![0x90; 6], 1),
+        ("mov rax,imm32 x6", SupportedMnemonic::Mov, [0x48u8, 0xC7, 0xC0, 5, 0, 0, 0].repeat(6), 7),
+    ];
+    for (pname, mn, code, _ilen) in progs.iter() {
+        for kind in 0..3usize {
+            for k in 0..4usize {
+                for pre in 0..3usize {
+                    for second in 0..2usize {
+                        if !e.next() {
+                            continue;
+                        }
+                        e.describe("hooks", &format!("late registration: {pname}, {} registered after {k} step(s), hooks at start: {}, second registration: {second}", ["before", "after", "before+after"][kind], ["none", "before", "after"][pre]));
+                        let mut c = code.clone();
+                        c.extend_from_slice(&[0xF4; 4]);
+                        let mut ax = Axecutor::new(&c, 0x1000, 0x1000).unwrap();
+                        let (pb, pa) = dispatch_hooks("late-pre");
+                        let (lb, la) = dispatch_hooks("late");
+                        let (sb, sa) = dispatch_hooks("late-second");
+                        match pre {
+                            1 => ax.hook_before_mnemonic_native(*mn, pb).unwrap(),
+                            2 => ax.hook_after_mnemonic_native(*mn, pa).unwrap(),
+                            _ => {}
+                        }
+                        let mut bad: Option<String> = None;
+                        // expected number of (before, after) hooks that run per instruction
+                        let mut exp = (if pre == 1 { 1 } else { 0 }, if pre == 2 { 1 } else { 0 });
+                        for step in 0..6usize {
+                            if step == k {
+                                if kind != 1 {
+                                    if ax.hook_before_mnemonic_native(*mn, lb).is_err() { bad = Some("registering a before-hook between steps was refused".into()); }
+                                    exp.0 += 1;
+                                }
+                                if kind != 0 {
+                                    if ax.hook_after_mnemonic_native(*mn, la).is_err() { bad = Some("registering an after-hook between steps was refused".into()); }
+                                    exp.1 += 1;
+                                }
+                            }
+                            if second == 1 && step == k + 1 {
+                                // a second late registration of the OTHER phase one step later
+                                if kind == 0 {
+                                    ax.hook_after_mnemonic_native(*mn, sa).ok();
+                                    exp.1 += 1;
+                                } else {
+                                    ax.hook_before_mnemonic_native(*mn, sb).ok();
+                                    exp.0 += 1;
+                                }
+                            }
+                            DISPATCH_LOG.with(|l| l.borrow_mut().clear());
+                            let out = crate::emu::step(&mut ax);
+                            e.count("transitions", 1);
+                            let log: Vec<(String, bool, String)> = DISPATCH_LOG.with(|l| l.borrow().clone());
+                            let nb = log.iter().filter(|x| x.1).count();
+                            let na = log.iter().filter(|x| !x.1).count();
+                            match out {
+                                StepOut::Panic(p) => { bad = Some(format!("step {} panicked: {}", step + 1, p.tag())); break; }
+                                StepOut::Err(er) => { bad = Some(format!("step {} failed: {}", step + 1, crate::emu::first_line(&er))); break; }
+                                StepOut::Ok(_) => {}
+                            }
+                            if bad.is_none() && (nb, na) != exp {
+                                bad = Some(format!("instruction {} ran {nb} before-hook(s) and {na} after-hook(s); registered by then: {} and {}", step + 1, exp.0, exp.1));
+                            }
+                        }
+                        let mut f = crate::common::Fp::new();
+                        f.str(pname);
+                        f.u64((((kind * 4 + k) * 3 + pre) * 2 + second) as u64 + 0x6c61_7465_0000);
+                        e.state(f.0);
+                        f.u64(bad.is_some() as u64);
+                        e.outcome(f.0);
+                        if let Some(b) = bad {
+                            e.finding("hooks|registered-between-steps-not-run", || format!("{pname}: {b}"), || json!({"program": pname, "kind": kind, "after_steps": k, "pre": pre, "second": second}));
+                        }
+                    }
+                }
+            }
+        }
+    }
+}
+
 fn gen(maxk: usize, tmpls: Vec<(String, Vec<u8>)>) -> impl Fn(&mut EnumCtx) + Sync {
     move |e: &mut EnumCtx| {
         dependent_sweep(e);
         dispatch_sweep(e, &tmpls);
+        late_registration_sweep(e);
         for nb in 0..=maxk {
             for na in 0..=maxk {
                 let tb = NOUT.pow(nb as u32);
